@@ -23,8 +23,8 @@ PROP = "C18"
 
 DS = [DatasetId("t", "a"), DatasetId("t", "b")]
 # report kinds of one job: three progress reports with increasing timestamps, two results, the shutdown notice
-REPORTS = ["P1", "P2", "P3", "Ra", "Rb", "S"]
-TS = {"P1": 10, "P2": 20, "P3": 30, "Ra": 25, "Rb": 35, "S": 40}
+REPORTS = ["P1", "P2", "P3", "Ra", "Rb", "Rab", "S"]
+TS = {"P1": 10, "P2": 20, "P3": 30, "Ra": 25, "Rb": 35, "Rab": 35, "S": 40}
 REMAINING = {"P1": 2, "P2": 1, "P3": 0}  # of total 3
 
 
@@ -92,6 +92,12 @@ class World:
             if ref["registered"] and (ref["max_ts"] is None or TS[kind] > ref["max_ts"]):
                 ref["max_ts"] = TS[kind]
                 ref["progress"] = "{:.2%}".format(1.0 - REMAINING[kind] / 3)[:-1]
+        elif kind == "Rab":  # one report carrying both results
+            vals = [(ds, b"\xfb\xff\xbe\x00" + f"{j}:{ds!r}".encode()) for ds in DS]
+            rep.socket.send(report.serialize(report.ControllerReport(job_id, None, TS[kind], vals)))
+            if ref["registered"]:
+                for ds, val in vals:
+                    ref["results"][ds] = val
         elif kind.startswith("R"):
             ds = DS[0] if kind == "Ra" else DS[1]
             val = b"\xfb\xff\xbe\x00" + f"{j}:{ds!r}".encode()  # base64 of the first bytes uses '+' and '/' 
@@ -150,6 +156,14 @@ class World:
                 else:
                     if r.error is None or r.result is not None:
                         out.append(("missing_result_no_error", "result never uploaded for that job/dataset answered without error", f"job {j} {ds!r}: {r!r}"))
+        if len(self.job_ids) >= 2:
+            r = ask(gapi.JobProgressRequest(job_ids=list(self.job_ids[:2])))
+            if r is not None and (r.error is not None or r.progresses != {jid: self.ref[j]["progress"] for j, jid in enumerate(self.job_ids[:2])}):
+                out.append(("progress_all_mismatch", "progress of two named jobs differs from the reference", f"{r!r}"))
+        if self.job_ids:
+            r = ask(gapi.JobProgressRequest(job_ids=[self.job_ids[0], "no-such-job"]))
+            if r is not None and r.error is None:
+                out.append(("unknown_job_no_error", "progress of a known and an unknown job answered without error", repr(r)))
         r = ask(gapi.JobProgressRequest(job_ids=[]))
         if r is not None and (r.error is not None or r.progresses != {jid: self.ref[j]["progress"] for j, jid in enumerate(self.job_ids)}):
             out.append(("progress_all_mismatch", "progress of all jobs differs from the reference", f"{r!r}"))
